@@ -142,7 +142,11 @@ def scalar_verdicts(ctx, db, aff, cfg, u, x):
     except Exception as e:
         ctx.violation("Scalar-construction-raised:%s" % type(e).__name__, dict(case, error=str(e)[:200]), replay=case)
         return None
-    got = s.IsValid()
+    try:
+        got = s.IsValid()
+    except Exception as e:
+        ctx.violation("IsValid-raised:%s:Scalar" % type(e).__name__, dict(case, error=str(e)[:160]), replay=case)
+        return None
     ctx.nt(("scalar", c, u, want, "nan" if x != x else ("inf" if math.isinf(x) else "finite")))
     if want != "ambiguous" and got != (want == "valid"):
         ctx.violation("scalar-verdict:%s-but-IsValid=%s" % (want, got), dict(case, converted=repr(cv)), replay=case)
@@ -237,7 +241,13 @@ def array_verdicts(ctx, db, aff, cfg, u, vals, svs):
             except Exception as e:
                 ctx.violation("Array-construction-raised:%s" % type(e).__name__, dict(case, container=kn, error=str(e)[:200]), replay=case)
                 continue
-            g = a.IsValid()
+            cc = dict(case, container=kn, order=list(p))
+            try:
+                g = a.IsValid()
+            except Exception as e:
+                # IsValid answers True / False; anything it lets escape is not a verdict
+                ctx.violation("IsValid-raised:%s:%s" % (type(e).__name__, kn), dict(cc, error=str(e)[:160]), replay=cc)
+                continue
             exc = None
             try:
                 a.CheckValidity()
@@ -249,7 +259,6 @@ def array_verdicts(ctx, db, aff, cfg, u, vals, svs):
                 a.CheckValidity()
             except Exception as e:
                 exc2 = e
-            cc = dict(case, container=kn, order=list(p))
             if g != g2 or (exc is None) != g or (exc2 is None) != g:
                 ctx.violation("array-verdict-not-repeatable-or-CheckValidity-disagrees", dict(cc, first=g, second=g2, error=repr(exc)[:160], error2=repr(exc2)[:160]), replay=cc)
             if want != "ambiguous" and g != (want == "valid"):
